@@ -14,6 +14,10 @@
 (*               base = root : absolute PHYSICAL path <dir of root>/segs   *)
 (*               base = "out": absolute PHYSICAL path <scratch dir>/segs,  *)
 (*                             i.e. outside every root                     *)
+(*               base = "<root>x": absolute PHYSICAL path into the unmapped *)
+(*                             sibling directory <dir of root>x (its path   *)
+(*                             starts with the root's path, yet it is       *)
+(*                             outside: any base that is no mapped root is) *)
 (*               segs over {"a","b","f","..",""}; "" = duplicate separator *)
 (*               style = how python renders separators (never matters)     *)
 (*   current   [has, virt, root, rel]: virtual path + physical location of *)
